@@ -70,6 +70,9 @@ TRANSPARENT_UNARY = (
     r"^tracing::Instrument::instrument$",
 )
 _TRANSPARENT = [re.compile(p) for p in TRANSPARENT_UNARY]
+# combinators that `?` looks through (simp_ok / err_of): their call is not an event of its own, so that
+# `x.ok_or(E)?` / `x.map_err(f)?` and the explicit `match` leave the same trace
+PURE_COMBINATOR = re.compile(r"^std::(option::Option::(ok_or|ok_or_else)|result::Result::(map_err|ok))$")
 
 
 def is_transparent(path):
@@ -508,7 +511,7 @@ class Walker:
         elif decl == "std::ops::FromResidual::from_residual":
             a = args[0]
             if isinstance(a, tuple) and a[0] == "resid":
-                val = ("errret", a[1])
+                val = ("errret", a[1], (f.get("targs") or [""])[0])
             else:
                 val = ("call", name, args, bi)
         elif is_transparent(name) or is_transparent(decl):
@@ -521,7 +524,8 @@ class Walker:
                 self._inline(st, g, {i + 1: a for i, a in enumerate(args)}, t, "call")
                 return None
             val = ("call", name, args, bi)
-            st["events"].append(("call", name, args, bi, loc_of(at), f, len(st["atoms"])))
+            if not PURE_COMBINATOR.search(name):
+                st["events"].append(("call", name, args, bi, loc_of(at), f, len(st["atoms"])))
         if t["t"] is None:
             # diverging call (panic etc.)
             self._finish(st, ("panic", name, args, loc_of(at), tuple(macs)))
@@ -612,6 +616,13 @@ class Walker:
                 return self._walk(other, st)
             if isinstance(x, tuple) and x[0] == "branch":
                 y = x[1]
+                kv = known_try(y)
+                if kv is not None:
+                    # `?` on a value built on this path (e.g. an inlined helper returned Err(..)): only one arm is feasible
+                    for v, b in arms:
+                        if (v == 0) == kv:
+                            return self._walk(b, st)
+                    return
                 for v, b in arms:
                     s2 = self._fork(st)
                     if self._assume(s2, simp_atom(("try", y, v == 0))):
@@ -670,9 +681,31 @@ def _call_is(e, suffix):
     return isinstance(e, tuple) and e[0] == "call" and (e[1] == suffix or e[1].endswith("::" + suffix) or e[1].endswith(suffix))
 
 
+def known_try(y):
+    """True / False when `y?` is known to continue / to return on this path (y is a constructor tree), else None"""
+    if isinstance(y, tuple) and y[0] == "agg" and y[1] == "adt":
+        if y[3] in ("Ok", "Some"):
+            return True
+        if y[3] in ("Err", "None"):
+            return False
+        if y[3] == "Ready" and y[2].endswith("task::Poll") and y[5]:
+            inner = known_try(y[5][0])
+            if inner is False:
+                return False
+            if inner is True and y[5][0][3] == "Ok":
+                return True
+        if y[3] == "Pending" and y[2].endswith("task::Poll"):
+            return True
+    return None
+
+
 def simp_ok(y):
     """value that continues after `y?`"""
     if isinstance(y, tuple):
+        if y[0] == "agg" and y[1] == "adt" and y[3] == "Ready" and y[2].endswith("task::Poll") and y[5] \
+                and isinstance(y[5][0], tuple) and y[5][0][0] == "agg" and y[5][0][3] == "Ok":
+            inner = y[5][0]
+            return y[:5] + ((inner[5][0] if inner[5] else ("unit",)),)
         if y[0] == "agg" and y[1] == "adt" and y[3] in ("Ok", "Some"):
             return y[5][0] if y[5] else ("unit",)
         if _call_is(y, "std::option::Option::ok_or") or _call_is(y, "std::option::Option::ok_or_else"):
@@ -687,6 +720,8 @@ def err_of(y):
     if isinstance(y, tuple):
         if y[0] == "agg" and y[1] == "adt" and y[3] == "Err":
             return y[5][0]
+        if y[0] == "agg" and y[1] == "adt" and y[3] == "Ready" and y[2].endswith("task::Poll") and y[5]:
+            return err_of(y[5][0])
         if _call_is(y, "std::option::Option::ok_or"):
             return y[2][1]
         if _call_is(y, "std::option::Option::ok_or_else"):
